@@ -19,10 +19,34 @@ pub struct LoggedIncoming {
     rx: mpsc::UnboundedReceiver<PipeEnd>,
     log: EventLog,
     pub taken: Arc<AtomicU64>,
+    /// scripted listener faults: `false` = one accept error (EMFILE-like), `true` = the listener ends
+    faults: mpsc::UnboundedReceiver<bool>,
+    ended: bool,
 }
 impl tokio_stream::Stream for LoggedIncoming {
     type Item = Result<PipeEnd, std::io::Error>;
     fn poll_next(mut self: std::pin::Pin<&mut Self>, cx: &mut std::task::Context<'_>) -> std::task::Poll<Option<Self::Item>> {
+        if self.ended {
+            return std::task::Poll::Ready(None);
+        }
+        match self.faults.poll_recv(cx) {
+            std::task::Poll::Ready(Some(false)) => {
+                self.log.push("listener_error", "", "");
+                return std::task::Poll::Ready(Some(Err(std::io::Error::other("verif: scripted accept failure (too many open files)"))));
+            }
+            std::task::Poll::Ready(Some(true)) => {
+                // the listener is gone: connections still queued are dropped unserved, later
+                // offers are refused
+                self.log.push("listener_ended", "", "");
+                self.ended = true;
+                self.rx.close();
+                while let Ok(p) = self.rx.try_recv() {
+                    drop(p);
+                }
+                return std::task::Poll::Ready(None);
+            }
+            _ => {}
+        }
         match self.rx.poll_recv(cx) {
             std::task::Poll::Ready(Some(p)) => {
                 self.log.push("conn_taken", &p.id, "");
@@ -79,6 +103,8 @@ pub struct Scenario {
     /// `concurrency_limit_per_connection`, (1 unused), 2 server HTTP/2
     /// keep-alive pings, 3 client `concurrency_limit`, 4 client `rate_limit`, 5 client keep-alive
     pub opts: u32,
+    /// (virtual ms, ends): accept errors yielded by the listener, or the listener ending by itself
+    pub listener_faults: Vec<(u64, bool)>,
 }
 
 pub struct ScenarioOut {
@@ -103,7 +129,22 @@ pub fn run_scenario(sc: &Scenario) -> ScenarioOut {
         }
         let (conn_tx, conn_rx) = mpsc::unbounded_channel::<PipeEnd>();
         let taken = Arc::new(AtomicU64::new(0));
-        let incoming = LoggedIncoming { rx: conn_rx, log: log.clone(), taken: taken.clone() };
+        let (fault_tx, fault_rx) = mpsc::unbounded_channel::<bool>();
+        let incoming = LoggedIncoming { rx: conn_rx, log: log.clone(), taken: taken.clone(), faults: fault_rx, ended: false };
+        let mut fl = sc.listener_faults.clone();
+        fl.sort();
+        let _fault_task = tokio::spawn(async move {
+            let mut now = 0u64;
+            for (t, end) in fl {
+                tokio::time::sleep(Duration::from_millis(t.saturating_sub(now))).await;
+                now = now.max(t);
+                if fault_tx.send(end).is_err() {
+                    break;
+                }
+            }
+            // keep the sender alive: a closed fault channel must not look like anything
+            std::future::pending::<()>().await;
+        });
         let mut sb = Server::builder();
         if let Some(w) = sc.server_window {
             sb = sb.initial_stream_window_size(Some(w));
@@ -125,7 +166,7 @@ pub fn run_scenario(sc: &Scenario) -> ScenarioOut {
         // server's SETTINGS arrive gets REFUSED_STREAM for the surplus - HTTP/2 behaviour, retriable,
         // and nothing a handler produced)
         if sc.opts & 4 != 0 {
-            sb = sb.http2_keepalive_interval(Some(Duration::from_millis(15))).http2_keepalive_timeout(Some(Duration::from_secs(5)));
+            sb = sb.http2_keepalive_interval(Some(Duration::from_millis(15))).http2_keepalive_timeout(Some(Duration::from_millis(20)));
         }
         let router = sb.add_service(VerifServer::new(h.clone()));
         let slog = log.clone();
@@ -396,13 +437,22 @@ pub fn gen_scenario(rng: &mut Rng, with_signal: bool) -> Scenario {
         // and lazily established connections to a server with a lowered window run into the h2
         // stall described in DESIGN.md section 6
         opts: if server_window.is_none() && rng.chance(1, 3) { rng.below(64) as u32 } else { 0 },
+        listener_faults: if with_signal && rng.chance(1, 4) {
+            let mut v: Vec<(u64, bool)> = (0..rng.urange(1, 3)).map(|_| (rng.below(70), false)).collect();
+            if rng.chance(1, 3) {
+                v.push((rng.below(70), true));
+            }
+            v
+        } else {
+            Vec::new()
+        },
         max_connection_age: if with_signal && server_window.is_none() && rng.chance(1, 3) { Some(Duration::from_millis(*rng.pick(&[3u64, 10, 25, 60]))) } else { None },
     }
 }
 
 pub fn scenario_json(sc: &Scenario) -> serde_json::Value {
     json!({"conns": sc.conns, "signal": format!("{:?}", sc.signal), "keep_clients": sc.keep_clients, "pipe": format!("{:?}", sc.pipe_cfg),
-        "server_window": sc.server_window, "client_window": sc.client_window, "server_timeout_ms": sc.server_timeout.map(|d| d.as_millis() as u64), "max_connection_age_ms": sc.max_connection_age.map(|d| d.as_millis() as u64), "option_mask": sc.opts,
+        "server_window": sc.server_window, "client_window": sc.client_window, "server_timeout_ms": sc.server_timeout.map(|d| d.as_millis() as u64), "max_connection_age_ms": sc.max_connection_age.map(|d| d.as_millis() as u64), "option_mask": sc.opts, "listener_faults": sc.listener_faults.iter().map(|(t, e)| json!([t, if *e { "ends" } else { "accept-error" }])).collect::<Vec<_>>(),
         "calls": sc.calls.iter().map(|c| json!({"id": c.id, "conn": c.conn, "start_ms": c.start_ms, "shape": format!("{:?}", c.shape), "script": script_json(&c.script),
             "latency_ms": c.script.latency_ms, "gaps_ms": c.script.gaps_ms, "end_gap_ms": c.script.end_gap_ms})).collect::<Vec<_>>()})
 }
@@ -410,7 +460,7 @@ pub fn scenario_json(sc: &Scenario) -> serde_json::Value {
 pub fn run(cfg: &RunCfg) -> Ctx {
     let mut all = Ctx::new();
     all.merge(par_cases(cfg, "shutdown", cfg.n(1200, 16 * 2500), || (), |_, rng, ctx, _| case(rng, ctx)));
-    for k in ["phase.pre-headers", "phase.mid-stream", "phase.done", "phase.not-started", "scen.no_call_in_flight", "scen.post_signal_call", "scen.signal_with_accept", "scen.kept_idle_clients", "scen.server_timeout_configured", "scen.max_connection_age_configured", "scen.rare_options_set", "observed.accepted_calls_completed"] {
+    for k in ["phase.pre-headers", "phase.mid-stream", "phase.done", "phase.not-started", "scen.no_call_in_flight", "scen.post_signal_call", "scen.signal_with_accept", "scen.kept_idle_clients", "scen.server_timeout_configured", "scen.max_connection_age_configured", "scen.rare_options_set", "scen.accept_errors", "scen.listener_ends_by_itself", "observed.accepted_calls_completed"] {
         all.floor(k, 3);
     }
     all
@@ -451,7 +501,9 @@ fn case(rng: &mut Rng, ctx: &mut Ctx) {
         }
     }
     let seq_of = |kind: &str, id: &str| ev.iter().find(|e| e.kind == kind && e.id == id).map(|e| e.seq);
-    let fired = ev.iter().find(|e| e.kind == "signal_fired").map(|e| e.seq);
+    // the drain starts at the signal, or when the listener ends by itself (whichever comes first):
+    // from then on nothing is accepted and serve resolves once the connections have closed
+    let fired = ev.iter().find(|e| e.kind == "signal_fired" || e.kind == "listener_ended").map(|e| e.seq);
     let resolved = ev.iter().find(|e| e.kind == "serve_resolved").map(|e| e.seq);
     if let Some(e) = &out.serve_err {
         ctx.violation("serve-error", format!("serve returned an error: {}", e));
@@ -524,6 +576,12 @@ fn case(rng: &mut Rng, ctx: &mut Ctx) {
     }
     if sc.opts != 0 {
         ctx.count("scen.rare_options_set");
+    }
+    if sc.listener_faults.iter().any(|f| !f.1) {
+        ctx.count("scen.accept_errors");
+    }
+    if sc.listener_faults.iter().any(|f| f.1) {
+        ctx.count("scen.listener_ends_by_itself");
     }
     if sc.server_timeout.is_some() {
         ctx.count("scen.server_timeout_configured");
